@@ -7,7 +7,8 @@
  *   that errno: EINTR, EAGAIN, EBADF, ENOSPC, EPIPE, ..., "0" = errno left untouched) | <n> | <n>*<k>
  *   the k-th call transfers min(n, requested, left) bytes; after the listed entries every
  *   further call transfers everything requested.
- * lines:
+ * lines (each may start with "@<n>": the descriptor number used by the line, default 77 — any
+ * number >= 0 is a descriptor, -1 is the only failure value of open()):
  *   W <tree> <flags> <sched> <serhex>      json_object_to_fd
  *      -> W <rc> <msg> <writes> <delivered> <ser> <leak>
  *   R <hexdoc> <depth|fd> <sched>          json_object_from_fd_ex (depth "fd": json_object_from_fd)
@@ -97,7 +98,11 @@ const char *DOMAIN = "fd";
  * broken tree can crash on dozens of lines.  Replay by hand with ASAN_OPTIONS=symbolize=1. */
 const char *__asan_default_options(void) { return "quarantine_size_mb=16:symbolize=0"; }
 
-#define THE_FD 77
+/* the descriptor number in play: what the scripted open() hands out and what the caller-provided
+ * descriptors of from_fd/from_fd_ex/to_fd are; a line may choose it with a leading "@<n>" token
+ * (0, 1, 2 need not be the real stdio descriptors: read/write/close are keyed by number here) */
+static int the_fd = 77;
+#define THE_FD (the_fd)
 
 static struct {
 	const unsigned char *data; size_t len, pos;     /* what is behind the descriptor (reads) */
@@ -766,6 +771,8 @@ void run_case(char *rest)
 	long live0;
 	xa_reset();
 	live0 = xa_live;
+	the_fd = 77;
+	if (op && op[0] == '@') { the_fd = atoi(op + 1); op = strtok_r(NULL, " ", &save); }
 	if (!op) { printf("BADLINE"); return; }
 	if (strcmp(op, "W") == 0) {
 		char *tree = strtok_r(NULL, " ", &save), *fl = strtok_r(NULL, " ", &save), *sc = strtok_r(NULL, " ", &save);
